@@ -319,6 +319,8 @@ package source
 //@   ghost pfirstG bool = true
 //@   ghost pcontG *server.RelatedFrom = nil
 //@   ghost tokG int = 0
+//@   ghost sentG int = 0
+//@   ghost psentG int = 0
 //@   requires multiSource != nil && multiSource.Store != nil && depSince != nil && depDataset != nil
 //@   at call PutUint64#1
 //@     ghost firstG := true
@@ -330,6 +332,17 @@ package source
 //@   at call GetRelatedAtTime#1
 //@     ghost contG := $result1
 //@     ghost firstG := false
+//@     ghost sentG := 0
+//@   at send#4 before
+//@     assert [C18:every-relation-of-a-page-is-handed-to-the-next-join-level-in-order] $arg0 == joinLvlChan && $arg1 == relatedEntities[$i3 + 1].EntityID && sentG == $i3 + 1
+//@     ghost sentG := sentG + 1
+//@   at loop 3 exit
+//@     assert [C18:no-relation-of-a-page-is-left-behind] sentG == len(relatedEntities)
+//@   at send#8 before
+//@     assert [C18:every-relation-of-a-back-dated-page-is-handed-to-the-next-join-level-in-order] $arg0 == joinLvlChan && $arg1 == prevRelatedEntities[$i5 + 1].EntityID && psentG == $i5 + 1
+//@     ghost psentG := psentG + 1
+//@   at loop 5 exit
+//@     assert [C18:no-relation-of-a-back-dated-page-is-left-behind] psentG == len(prevRelatedEntities)
 //@   at call AsIncrToken#2
 //@     ghost tokG := $result
 //@   at call GetChanges#1 before
@@ -341,6 +354,7 @@ package source
 //@   at call GetRelatedAtTime#2
 //@     ghost pcontG := $result1
 //@     ghost pfirstG := false
+//@     ghost psentG := 0
 //@   loop 2
 //@     invariant firstG ==> nextRelatedFrom == relatedFrom
 //@     invariant !firstG ==> nextRelatedFrom == contG && contG != nil
@@ -352,6 +366,10 @@ package source
 //@     invariant len(relatedFrom.RelationIndexFromKey) == 10
 //@     invariant encBE64(relatedFrom.RelationIndexFromKey, 2) == rid
 //@     invariant encBE16(relatedFrom.RelationIndexFromKey, 0) == (join.Inverse ? 2 : 3)
+//@   loop 3
+//@     invariant sentG == $i + 1 && $i < len(relatedEntities)
+//@   loop 5
+//@     invariant psentG == $i + 1 && $i < len(prevRelatedEntities)
 //@   loop 4
 //@     invariant pfirstG ==> prevRelatedFrom == relatedFrom && relatedFrom != nil && relatedFrom.At == changes.Entities[0].Recorded && relatedFrom.Predicate == predID && !relatedFrom.Inverse && !join.Inverse && idx == 0 && relatedFrom.Datasets == datasets && len(relatedFrom.RelationIndexFromKey) == 10 && encBE64(relatedFrom.RelationIndexFromKey, 2) == rid && encBE16(relatedFrom.RelationIndexFromKey, 0) == 3
 //@     invariant !pfirstG ==> prevRelatedFrom == pcontG && pcontG != nil
